@@ -1433,6 +1433,7 @@ func Run(c *core.Ctx) {
 	if c.Property == "C08" {
 		runRetained(c)
 		runQueryCallbackEvents(c)
+		runNestedListenerEvents(c)
 	}
 	c.Cover("traces_validated_against_impl", len(recs))
 	c.Cover("evaluations", len(recs))
